@@ -233,6 +233,13 @@ class Renderer:
         if c[0] == "not":
             t = self.truth(c[1])
             return None if t is None else not t
+        if c[0] == "islet" and isinstance(c[2], tuple) and c[2][0] == "ifelse" and c[1].rsplit("::", 1)[-1].startswith(("Some(", "None")):
+            # `if let Some(x) = cond.then(..)`: the decision is `cond` (all spellings of one decision must agree within a sample)
+            ov = og._opt_view(c[2])
+            if ov is not None and ov[0] is not True:
+                t = self.truth(ov[0])
+                if t is not None:
+                    return t if c[1].rsplit("::", 1)[-1].startswith("Some(") else not t
         if c[0] == "islet":
             pat = c[1]
             base = c[2]
